@@ -26,6 +26,8 @@ What these functions CALL is vocabulary:
 HAND-MODELLED, pinned by token hash:
   * Term::new and the list of methods of `impl Term` (font_family and padding_px have no setter: their getters are
     the constants tools/gen_svg.py reads from Term::new);
+  * Term::{palette, fg_color, bg_color, background, min_width_px} and `impl Default for Term` (builder plumbing:
+    the hand model's counterpart is the record constructor mkSvgTerm);
   * WinconBytes::new (Default::default() of a derive: a fresh parser and capture)."""
 import os
 import sys
@@ -505,6 +507,17 @@ Local Open Scope bool_scope."""
 PIN_TERM_NEW = "c29524bd097a9348"          # Term::new: the constants behind svg_t_font_family / svg_t_padding (tools/gen_svg.py reads them)
 PIN_WINCON_NEW = "6d04de4a0dc0f8a7"      # WinconBytes::new: Default::default() of a derive = (parser_new, capture_default)
 TERM_METHODS = ["new", "palette", "fg_color", "bg_color", "background", "min_width_px", "render_svg"]
+# builder plumbing (`const fn f(mut self, x) -> Self { self.f = x; self }`, `impl Default`): the hand model has no
+# counterpart but the record constructor mkSvgTerm (the correspondence driver builds the term from its four
+# fields); min_width_px is the oracle's svg_o_min_width
+PIN_BUILDERS = {
+    "palette": "029598a52af374f5",
+    "fg_color": "18716bceb917f286",
+    "bg_color": "0f6fa76590a2460e",
+    "background": "320d4ce2d037253d",
+    "min_width_px": "dd5f781b239af3e4",
+    "default": "26b99b30cad16896",
+}
 
 
 def impl_fn_names(src, name):
@@ -550,6 +563,11 @@ def register(generators, gm):
             names = impl_fn_names(src, "Term")
             if names != TERM_METHODS:
                 raise TranslateError("impl Term: methods %s, expected %s (a new setter would make a constant field variable)" % (names, TERM_METHODS))
+            for fname, pin in PIN_BUILDERS.items():
+                h = token_hash(fn_source(src, fname, "Term"))
+                if h != pin:
+                    raise TranslateError("Term::%s changed (token hash %s, pinned %s): builder plumbing, modelled by the record "
+                                         "constructor mkSvgTerm" % (fname, h, pin))
             h = token_hash(fn_source(wsrc, "new", "WinconBytes"))
             if h != PIN_WINCON_NEW:
                 raise TranslateError("WinconBytes::new changed (token hash %s, pinned %s): modelled as a fresh parser and capture" % (h, PIN_WINCON_NEW))
